@@ -30,7 +30,8 @@ func fixedCacheCases() []*CacheCase {
 	}
 }
 
-var fixedPMNames = []string{"tx-batch-of-8", "orphans-5-9-12-then-7", "all-confirms-before-blocks-reverse", "every-block-twice-in-order", "two-orphan-islands-filled-downwards", "remotes-join-and-leave-while-syncing"}
+var fixedPMNames = []string{"tx-batch-of-8", "orphans-5-9-12-then-7", "all-confirms-before-blocks-reverse", "every-block-twice-in-order", "two-orphan-islands-filled-downwards", "remotes-join-and-leave-while-syncing",
+	"confirm-arrives-while-its-block-is-inserted-3ms", "confirm-arrives-while-its-block-is-inserted-8ms", "confirm-arrives-while-its-block-is-inserted-20ms"}
 
 func seq(lo, hi int) []int {
 	var out []int
@@ -56,6 +57,8 @@ func fixedPMCase(k, try int, scratch string) (*PMCase, error) {
 		nDep, n = 4, 6
 	case 5:
 		nDep, n = 3, 10
+	case 6, 7, 8:
+		nDep, n = 5, 6
 	}
 	wcfg := fx.WorldCfg{Deputies: nDep, Users: 6, SlotMs: 10000}
 	w := fx.NewWorld(wcfg)
@@ -187,6 +190,32 @@ func fixedPMCase(k, try int, scratch string) (*PMCase, error) {
 		round(1, 10, 8)
 		cs.Steps = append(cs.Steps, blk(0, 9))
 		cs.Steps = append(cs.Steps, confirmsOf(0, 9)...)
+	case 6, 7, 8:
+		// The top block becomes stable only with its third confirm, and that confirm arrives (from
+		// another remote) a few milliseconds behind the block itself: while the block loop, which has
+		// already taken the early confirms out of the confirm cache, is still inserting the block
+		// behind a queue of confirm insertions for the lower blocks.
+		cs.Peers = []PeerSpec{{Deputy: 0}, {Deputy: 1}, {Deputy: -1}}
+		for i := 0; i < n; i++ {
+			if i == n-1 {
+				cs.Twin = append(cs.Twin, []int{0, 1, 2})
+			} else {
+				cs.Twin = append(cs.Twin, []int{0, 1})
+			}
+		}
+		cs.Steps = append(cs.Steps, blk(0, 1, 2, 3, 4, 5))
+		for h := 1; h < n; h++ {
+			cs.Steps = append(cs.Steps, confirmsOf(h%2, h)...)
+		}
+		cs.Steps = append(cs.Steps,
+			Step{Kind: "confirm", Peer: 1, Block: n - 1, Sig: 0}, Step{Kind: "confirm", Peer: 0, Block: n - 1, Sig: 1}, // early: cached
+			Step{Kind: "tick"})
+		for rep := 0; rep < 8; rep++ { // the queue: repeated confirms of the lower blocks, each inserted under the chain lock
+			for h := 1; h < n; h++ {
+				cs.Steps = append(cs.Steps, Step{Kind: "confirm", Peer: 2, Block: h - 1, Sig: rep % 2})
+			}
+		}
+		cs.Steps = append(cs.Steps, blk(0, n), Step{Kind: "pause", Ms: []int{3, 8, 20}[k-6]}, Step{Kind: "confirm", Peer: 1, Block: n - 1, Sig: 2})
 	}
 	return cs, nil
 }
